@@ -12,8 +12,8 @@ Modelled, statement by statement, from src/quantum_gates/_gates/integrator.py (`
 
 What is modelled of Python / numpy (stated, not verified):
  * a number is the float64 it converts to (`Num.val bits`, the IEEE-754 bit pattern as a natural number, so "identical" is
-   bitwise) together with a tag of the numeric type it was passed as (`NumTy`: bool | int | f64 | f32 | f16), because numpy
-   evaluates `np.sin` in the precision of that type.  The harness only feeds integers that are exactly representable.
+   bitwise) together with a tag of the numeric type it was passed as (`NumTy`: Python bool | int | float (`f64`), numpy int64 (`i64`) | float64 (`npf64`) |
+   float32 | float16), because numpy evaluates `np.sin` in the precision of that type and promotes Python scalars weakly.  The harness only feeds integers that are exactly representable.
  * `==` / `hash` on numbers ignore the type tag and compare values: `1 == 1.0 == True == np.float32(1)`, `-0.0 == 0.0`
    (`Num.pyEq`).  A NaN is never equal to anything, but the dictionary lookup short-cuts on object identity: `Num.nan obj`
    carries an object id and two NaNs are "equal" for the lookup iff they are the same object.
@@ -30,7 +30,7 @@ namespace QG.Model.IntegratorCache
 
 /-! ## numbers, requests, keys -/
 
-inductive NumTy | bool | int | f64 | f32 | f16
+inductive NumTy | bool | int | i64 | f64 | npf64 | f32 | f16
   deriving DecidableEq, Repr
 
 /-- a float64 value by its bit pattern, or a NaN object -/
@@ -271,5 +271,86 @@ def runShots {G V M S : Type} (cfg : Config) (compute : Req → V) (rng : Rng G 
     | (.ok (m, s'), g', c') =>
       let q := runShots cfg compute rng copied shot n (if copied then s else s') g' (if copied then c else c')
       (match q.1 with | .ok ms => .ok (m :: ms) | .error e => .error e, q.2)
+
+/-! ## vocabulary of the static extraction (the tables of lean/QG/Gen/Determinism.lean) and the checks computed on them -/
+
+/-- a call into numpy's global generator: `np.random.normal(mean, std)` or `np.random.multivariate_normal(mean, cov, 1)`
+with a `dim`-dimensional mean -/
+inductive Draw
+  | normal
+  | mvn (dim : Nat)
+  deriving DecidableEq, Repr
+
+/-- how an `__init__` obtains the value it stores in an attribute -/
+inductive InitSrc
+  | integratorParam                                   -- `self.integrator = integrator`  (the constructor's argument)
+  | newIntegrator                                     -- `self.integrator = Integrator(pulse)`
+  | factory (cls : String) (passesIntegrator : Bool)  -- `self.x = Cls(self.integrator)` / `self.x = Cls()`
+  | gateSet (cls : String)                            -- `self.gates = Gates(pulse)`
+  | scalar                                            -- plain data (`noise_scaling`)
+  deriving DecidableEq, Repr
+
+abbrev InitTable := List (String × List (String × InitSrc))     -- class name ↦ (attribute ↦ source), in statement order
+
+def InitTable.attrs (t : InitTable) (cls : String) : Option (List (String × InitSrc)) :=
+  (t.find? (·.1 == cls)).map (·.2)
+
+/-- a factory class built with the constructor argument `integrator`: it creates no integrator of its own and every
+sub-factory that needs one receives that same argument (`fuel` bounds the nesting depth of the table) -/
+def usesGivenIntegrator (t : InitTable) : Nat → String → Bool
+  | 0, _ => false
+  | fuel + 1, cls =>
+    match t.attrs cls with
+    | none => false
+    | some l => l.all fun p =>
+        match p.2 with
+        | .integratorParam => true
+        | .factory c true => usesGivenIntegrator t fuel c
+        | .factory c false => t.attrs c == some []
+        | _ => false
+
+/-- a gate-set class: exactly one `Integrator(pulse)` is created, every factory that takes an integrator receives it, the
+others have no attributes at all -/
+def ownsOneIntegrator (t : InitTable) (cls : String) : Bool :=
+  match t.attrs cls with
+  | none => false
+  | some l =>
+    (l.filter fun p => p.2 == .newIntegrator).length == 1 &&
+    l.all fun p =>
+      match p.2 with
+      | .newIntegrator => true
+      | .factory c true => usesGivenIntegrator t 4 c
+      | .factory c false => t.attrs c == some []
+      | _ => false
+
+/-- a wrapper class (`ScaledNoiseGates`): plain data and exactly one gate set of its own, which owns one integrator -/
+def wrapsOneGateSet (t : InitTable) (cls : String) : Bool :=
+  match t.attrs cls with
+  | none => false
+  | some l =>
+    (l.filter fun p => match p.2 with | .gateSet _ => true | _ => false).length == 1 &&
+    l.all fun p =>
+      match p.2 with
+      | .gateSet c => ownsOneIntegrator t c
+      | .scalar => true
+      | _ => false
+
+/-- how `_perform_simulation` builds one entry of a shot's argument dict -/
+inductive ShotArg
+  | deepcopy                          -- `copy.deepcopy(<caller's object>)`
+  | fresh (argsIsolated : Bool)       -- a new object per shot whose constructor arguments are deep copies or immutable ints
+  | shared                            -- the caller's object itself
+  deriving DecidableEq, Repr
+
+def shotArgsIsolated (l : List (String × ShotArg)) : Bool :=
+  l.all fun p => match p.2 with | .deepcopy => true | .fresh b => b | .shared => false
+
+/-- flattened draw script of a factory: its own draws, or the concatenation of its constituents' scripts in call order -/
+def flattenScript (own : List (String × List Draw)) (calls : List (String × List String)) : Nat → String → List Draw
+  | 0, _ => []
+  | fuel + 1, cls =>
+    match (calls.find? (·.1 == cls)).map (·.2) with
+    | some (c :: cs) => (c :: cs).flatMap (flattenScript own calls fuel)
+    | _ => ((own.find? (·.1 == cls)).map (·.2)).getD []
 
 end QG.Model.IntegratorCache
